@@ -27,7 +27,7 @@ MAXN = 0x7FFFFFFF
 
 
 def plan(tier, seed):
-    return [('streams', 1200 if tier == 'quick' else 40000), ('single', 200 if tier == 'quick' else 5000)]
+    return [('streams', 6000 if tier == 'quick' else 60000), ('single', 1000 if tier == 'quick' else 8000)]
 
 
 def _mods(version):
